@@ -137,11 +137,17 @@ def _phase_close(x: float, y: float, tol: float) -> bool:
 
 
 def timeline_diff(a: dict, b: dict, tol: float = 1e-9, by_id: bool = False,
-                  check_flags: bool = True, name_map: dict | None = None) -> list[str]:
+                  check_flags: bool = True, name_map: dict | None = None, eom_off: bool = True) -> list[str]:
     """Behavioural comparison of two snapshots (samples to `tol`, phases mod 2pi)."""
     out = []
     na = dict(a["chans"])
     nb = dict(b["chans"])
+    if by_id and name_map is None:
+        # DMM channels are named after their device id: match them by order of declaration
+        da = [n for n, c in na.items() if c["detmap"] is not None]
+        db = [n for n, c in nb.items() if c["detmap"] is not None]
+        if len(da) == len(db):
+            name_map = dict(zip(db, da))
     if name_map:
         nb = {name_map.get(k, k): v for k, v in nb.items()}
     if set(na) != set(nb):
@@ -175,6 +181,8 @@ def timeline_diff(a: dict, b: dict, tol: float = 1e-9, by_id: bool = False,
                     out.append(f"{n}[{i}]: post_phase_shift {apps} vs {bpps}")
                     break
         ea, eb = ca["eom"], cb["eom"]
+        if not eom_off:  # the off-detuning is only compared through the samples of the idle slots
+            ea, eb = [x[:4] for x in ea], [x[:4] for x in eb]
         if len(ea) != len(eb) or any(
             x[:2] != y[:2] or not np.allclose(x[2:], y[2:], atol=tol * (1 + max(map(abs, x[2:]))), rtol=0)
             for x, y in zip(ea, eb)
